@@ -108,6 +108,8 @@ def gen_continuum(rng, n_annot=None, max_units=4, family=None, labels=None, p_no
     n = n_annot or rng.randint(2, 5)
     family = family or rng.choice(FAMILIES)
     labels = labels if labels is not None else LABELS_SMALL
+    if names is None and rng.random() < 0.3:
+        names = pick_names(rng, n)      # names whose alphabetical order differs from numeric / case-insensitive order
     names = list(names or ANNOTATOR_NAMES[:n])
     while True:
         if sizes is None:
